@@ -93,6 +93,7 @@ size_t   vp_live_bytes(void);
 size_t   vp_high_bytes(void);
 int      vp_ledger_violations(void);         /* foreign/double free seen */
 const char *vp_ledger_last_violation(void);
+void     vp_ledger_disown_all(void);         /* drop the accounting WITHOUT freeing (blocks the core still references in fallback mode) */
 void     vp_ledger_forget_all(void);         /* really free everything still live (between cases) */
 int      vp_log_format_check(int on);        /* vsnprintf every log call (UB in format args visible) */
 uint64_t vp_log_calls(void);
